@@ -29,6 +29,9 @@ type fakeS3 struct {
 	keys    map[string]bool
 	page    int
 	lists   int
+	reqs    int
+	cancelAt int
+	cancel  func()
 	failAt  int    // fail the failAt-th LIST request (0 = never)
 	failHow string // AccessDenied | NoSuchBucket
 	delFail int    // refuse the delFail-th DELETE request (0 = never)
@@ -63,6 +66,10 @@ func (s *fakeS3) ServeHTTP(w http.ResponseWriter, r *http.Request) {
 	p := strings.TrimPrefix(r.URL.Path, "/")
 	parts := strings.SplitN(p, "/", 2)
 	q := r.URL.Query()
+	s.reqs++
+	if s.cancelAt > 0 && s.reqs == s.cancelAt && s.cancel != nil {
+		s.cancel() // the caller's context is cancelled while this request is in flight
+	}
 	switch {
 	case r.Method == "GET" && q.Get("list-type") == "2" && (len(parts) == 1 || parts[1] == ""):
 		s.lists++
@@ -163,7 +170,12 @@ func c16S3(a vh.Args, o *vh.Oracle, r *vh.Result, c *c16Case) error {
 		}
 		keep[id] = struct{}{}
 	}
-	perr := st.Prune(context.Background(), keep)
+	ctx, cancel := context.WithCancel(context.Background())
+	defer cancel()
+	srv.mu.Lock()
+	srv.cancelAt, srv.cancel = c.CancelAt, cancel
+	srv.mu.Unlock()
+	perr := st.Prune(ctx, keep)
 	res := "nil"
 	if perr != nil {
 		res = "other"
@@ -205,7 +217,13 @@ func c16S3(a vh.Args, o *vh.Oracle, r *vh.Result, c *c16Case) error {
 		r.Fail("predicate", class, what, c)
 	}
 	srv.mu.Lock()
-	injected := srv.failAt > 0 && srv.lists >= srv.failAt
+	cancelled := srv.cancelAt > 0 && srv.reqs >= srv.cancelAt
+	srv.mu.Unlock()
+	if cancelled {
+		r.Dist("s3-cancelled:result=" + res)
+	}
+	srv.mu.Lock()
+	injected := srv.failAt > 0 && srv.lists >= srv.failAt || cancelled
 	refused := append([]string{}, srv.refused...)
 	srv.mu.Unlock()
 	if len(refused) > 0 {
@@ -238,7 +256,9 @@ func c16S3(a vh.Args, o *vh.Oracle, r *vh.Result, c *c16Case) error {
 		if afterSet[k] {
 			if id, ok := canon(k); ok && !lsInSet(c.Keep, id) && res == "nil" {
 				cls, extra := "s3prune/leaves-unreferenced", ""
-				if injected {
+				if cancelled {
+					cls, extra = "s3prune/cancelled-reports-success", fmt.Sprintf(" (the context was cancelled at request %d, Prune returned nil)", c.CancelAt)
+				} else if injected {
 					cls, extra = "s3prune/list-error-swallowed", fmt.Sprintf(" (LIST request %d was answered %s, Prune returned nil)", c.N, c.Backend)
 				}
 				fail(cls, "unreferenced chunk object left: "+k+extra)
@@ -341,6 +361,17 @@ func c16S3All(a vh.Args, o *vh.Oracle, r *vh.Result, rng *vh.Rand) error {
 		}
 		c.Keep, c.KeepTag = c16Keep(rng, ids)
 		c.Feat = lsFeats(feat)
+		if i%4 == 2 { // cancel the context at every request of the listing/removal sequence in turn
+			fc := *c
+			fc.Keep, fc.KeepTag = nil, "empty"
+			for n := 1; n <= len(fc.Keys)/3+len(fc.Keys)+2; n++ {
+				cc := fc
+				cc.CancelAt = n
+				if err := c16S3(a, o, r, &cc); err != nil {
+					return err
+				}
+			}
+		}
 		if i%4 == 1 { // refuse every DELETE request in turn
 			fc := *c
 			fc.Keep, fc.KeepTag = nil, "empty"
